@@ -5,8 +5,9 @@ from common import from_replay, to_replay  # noqa: F401
 
 PID = "C01"
 COQ_MODULE = "Prop_C01"
-THEOREMS = ["C01_no_deadlock", "C01_no_self_wait", "C01_stable_test_sound", "C01_model_state_not_deadlocked"]
-CASE_MODULES = ["Conc", "BMonitors"]
+THEOREMS = ["C01_no_deadlock", "C01_no_self_wait", "C01_stable_test_sound", "C01_model_state_not_deadlocked",
+            "C01_every_schedule", "C01_every_schedule_deadlock_free", "C01_every_schedule_no_self_wait", "C01_model_never_deadlocks"]
+CASE_MODULES = ["Conc", "BMonitors", "WpMain"]
 CHECK_WITHOUT_PROOF = True
 TRUSTED = common.TRUSTED_COMMON + ["deterministic scheduler of the harness: real OS threads, one runnable at a time, "
                                    "every raw lock operation and data access is a scheduling point"]
